@@ -26,6 +26,12 @@ Proof.
   destruct (q =? 1) eqn:E1; cbn [fst snd]; [rewrite tr_merge|]; reflexivity.
 Qed.
 
+Lemma qmerge_span_tr bit w ts : tr2 (qmerge_span bit w ts) = merge_span bit w (tr2 ts).
+Proof.
+  unfold qmerge_span, merge_span. change INTEGER with (tr CInt).
+  destruct ((bit + w - 1) / 64 =? bit / 64); rewrite ?qmerge_tr; reflexivity.
+Qed.
+
 Lemma level_cleanup_tr sub ts :
   option_map tr2 (level_cleanup sub ts)
   = match cleanup (tr2 sub) with None => None | Some e => Some (merge2 e (tr2 ts)) end.
@@ -112,7 +118,7 @@ Proof.
     + destruct Hrel as [Hw Hb]. replace (m_bit r1 <? 0) with false by lia.
       rewrite Hw. destruct (w =? 0) eqn:E.
       * apply IH; assumption.
-      * rewrite (Hnorm ltac:(lia)). change INTEGER with (tr CInt). rewrite <- qmerge_tr.
+      * rewrite (Hnorm ltac:(lia)). rewrite <- qmerge_span_tr.
         replace ((off + m_off r1) * 8 + m_bit r1) with ((m_off r1 + off) * 8 + m_bit r1) by lia.
         apply IH; assumption.
     + destruct Hrel as [Hb Hw]. rewrite (Hnorm ltac:(lia)). replace (m_bit r1 <? 0) with true by lia.
